@@ -130,11 +130,14 @@ CLAIMED.update({
     "C14": dict(
         text="Two parts. (1) IprSeq.tla: positional access at 0..size+2 and SIZE_MAX, iteration and begin-to-end distance for a "
              "sequence holding n appended elements; TLC prints the expected observation after each append and it is replayed on "
-             "all 25 sequence implementations/routes the library ships (every size 0..4 quick / 0..8 thorough); recorded runs "
+             "all 25 sequence implementations/routes the library ships (every size 0..36 quick / 0..70 thorough; positions 2^k + j far "
+             "beyond the bounds; the newest element first, positions in descending order). IprIter.tla: one iterator object as a state "
+             "machine whose state is its position, put through every sequence of 4 (quick) / 5 (thorough) operations on every "
+             "implementation; recorded runs "
              "(also under ASan/UBSan) and Optional::get on empty and valid values go through the trace spec. (2) The IprMake "
              "sweep restricted to refusals: every accessor of every factory-built node in every subset of its settable links "
              "must be refused with std::logic_error while the link is unset.",
-        ref="DESIGN.md §3 C14", tech="TLA+ IprSeq + IprMake: expected outcomes from TLC replayed on every sequence implementation and every link state; trace validation under ASan/UBSan",
+        ref="DESIGN.md §3 C14", tech="TLA+ IprSeq + IprIter + IprMake: expected outcomes from TLC replayed on every sequence implementation and every link state; trace validation under ASan/UBSan",
         note="Trusted: TLC, spec/IprSeq.tla, the link columns of the node table, harness/seqs.cxx + make.cxx; undefined behaviour is "
              "only visible as a sanitizer report or crash (terminal trace event). Declarations' checked links (home region, "
              "linkage, lexical region) are exercised only through the statements and expressions of the node table."),
@@ -144,8 +147,10 @@ CLAIMED.update({
              "Udt scope/members, Block body, Template parameters/result, default_value = initializer, Type::linkage = "
              "transfer().linkage, Scope::size; and for the six equality operators, eq[i][j] = (spelling i = spelling j) on all "
              "pairs of six values with != its negation. The harness logs the derived result together with the primitives and TLC "
-             "evaluates the equation; sequence observations are also generated by TLC and replayed on all implementations.",
-        ref="DESIGN.md §3 C15", tech="TLA+ IprSeq: defining equations evaluated by TLC on recorded derived/primitive pairs + replayed sequence observations",
+             "evaluates the equation; sequence observations are also generated by TLC and replayed on all implementations, and "
+             "IprIter.tla (an iterator's state is its position; ++, --, postfix forms, *, ->, copy, == begin()/end()) is replayed as "
+             "every operation sequence of depth 4 (quick) / 5 (thorough) on every implementation.",
+        ref="DESIGN.md §3 C15", tech="TLA+ IprSeq + IprIter: defining equations evaluated by TLC on recorded derived/primitive pairs + replayed sequence observations",
         note="Trusted: TLC, spec/IprSeqTrace.tla, harness/seqs.cxx. Identity comparisons (same object returned) are computed by the "
              "harness and logged as a boolean."),
     "C16": dict(
